@@ -101,7 +101,7 @@ StageNeed == /\ ctl.k = "need" /\ ctl.at \in 1..n
                 ELSE ctl' = NeedAt(i - 1) /\ UNCHANGED <<q, loc, fin>>
              /\ UNCHANGED <<scen, runvars, pos, out, pulls, asked, stopped>>
 
-Raises(st, v) == st.t = "raiser" /\ v.d = st.at
+Raises(st, v) == FailsOn(st, v)
 StageHave == /\ ctl.k = "have" /\ ctl.at \in 1..n /\ ~Raises(prog[ctl.at], ctl.v)
              /\ LET i == ctl.at
                     r == OnHave(prog[i], loc[i], ctl.v) IN
@@ -267,7 +267,9 @@ AlphaRerun == {Map("inc"), Filter("even"), Slice(1, 3, 1), Slice(0, 2, 1), NSlic
 \* that finish early, look ahead, buffer, store or accumulate
 RaisersC01 == {Raiser(1, "stop"), Raiser(2, "value"), Raiser(0, "lena"), Raiser(3, "stop")}
 AlphaFail == RaisersC01 \cup {Map("inc"), Filter("even"), Slice(0, 2, 1), Count, Sum, Reverse, LagK(1),
-                              SplitSt(<<Map("inc"), Filter("even")>>, 2), RunIf("even", "inc")}
+                              SplitSt(<<Map("inc"), Filter("even")>>, 2), RunIf("even", "inc"),
+                              RunIfS("even", <<Map("inc"), Raiser(3, "stop")>>), RunIfS("lt2", <<Raiser(1, "value")>>)}
+RaisingC01 == RaisersC01 \cup {RunIfS("even", <<Map("inc"), Raiser(3, "stop")>>), RunIfS("lt2", <<Raiser(1, "value")>>)}
 AlphaC01Small == {Map("inc"), Map("tag"), Filter("even"), Slice(1, 3, 1), LagK(1), Count,
                   RunIf("even", "inc"), Reverse, Sum, SplitSt(<<Map("inc"), Sum>>, 2), Bad("int")}
 \* ---- C02 ----
